@@ -45,9 +45,9 @@ def run(tier, seed):
     # track U: the same function for symbol lists of every length (loop invariants + ghost state): proved obligations
     from contracts.regalloc_u import symbol_body_contract, u_contract
 
-    from contracts.lifetime_c import loop_ancestor_contract
+    from contracts.lifetime_c import lifetime_contract, loop_ancestor_contract
 
-    run_contracts(rep, [u_contract(), symbol_body_contract(), loop_ancestor_contract()])
+    run_contracts(rep, [u_contract(), symbol_body_contract(), loop_ancestor_contract(), lifetime_contract()])
     over_16_live(rep)
     replay_known(rep, "C04")
     run_bounded(rep, "C04", [("pressure", {"depth": 4, "max_stmts": 8, "max_funcs": 3}, "calls", 300 if q else 12000),
